@@ -146,7 +146,13 @@ def parse_rules(world):
 def build_record(world):
     record = DummyRecord(seq="A" * world["L"], circular=world["circular"])
     for name, gene in world["genes"].items():
-        record.add_cds_feature(DummyCDS(location=G.from_case(gene["loc"]), locus_tag=name))
+        location = G.from_case(gene["loc"])
+        if name.isidentifier():
+            record.add_cds_feature(DummyCDS(location=location, locus_tag=name))
+        else:
+            # a name that the feature has to clean: the real class does that (the test double insists on clean names)
+            from antismash.common.secmet.features import CDSFeature
+            record.add_cds_feature(CDSFeature(location, locus_tag=name, translation="M" * max(1, len(location) // 3)))
     return record
 
 
